@@ -18,10 +18,13 @@ pub fn num_cases(ctx: &Ctx) -> u64 {
     match (ctx.mode, ctx.tier) {
         (Mode::Miri, _) => 24,
         (Mode::Asan | Mode::Tsan, _) => 1500,
-        (Mode::Native, Tier::Quick) => 12_000,
+        (Mode::Native, Tier::Quick) => 14_000,
         (Mode::Native, Tier::Thorough) => 200_000,
     }
 }
+
+/// number of cases of the deterministic chain-length sweep (lengths 250..=1299, 4 configurations each)
+const SWEEP_LEN: usize = 4 * 1050;
 
 struct Coll {
     spec: Spec,
@@ -55,6 +58,17 @@ fn gen_coll(ctx: &Ctx, rng: &mut Rng, idx: u64) -> Coll {
     let corp = corpus();
     if (idx as usize) < corp.len() {
         return corp.into_iter().nth(idx as usize).unwrap();
+    }
+    // W12a: systematic sweep over chain lengths 250..1300 x {default, num_free_blocks(1)} x variant
+    // (valid collections that fill double-array blocks exactly: construction must not panic)
+    let sweep = idx as usize - corp.len();
+    if !ctx.slow() && sweep < SWEEP_LEN {
+        let len = 250 + sweep / 4;
+        let nfb = if sweep % 2 == 0 { None } else { Some(1u32) };
+        let variant = if (sweep / 2) % 2 == 0 { Variant::Bytewise } else { Variant::Charwise };
+        let kind = crate::pma::KINDS[(sweep / 4) % 3];
+        let c = gen::chain_case(rng, variant, kind, len, nfb);
+        return Coll { spec: c.spec, patterns: c.patterns, injected: vec![], workload: c.workload };
     }
     let variant = if rng.chance(1, 2) { Variant::Bytewise } else { Variant::Charwise };
     let kind = gen::any_kind(rng);
@@ -276,7 +290,7 @@ pub fn run_case(ctx: &mut Ctx, idx: u64) {
     let mut coll = gen_coll(ctx, &mut rng, idx);
     // index-conversion boundary for narrow types: exactly max+1 (valid) or max+2 (invalid) patterns
     let tsel = idx % 7;
-    if !ctx.slow() && coll.spec.entry == Entry::New && (tsel == 1 || tsel == 2 || tsel == 3) && rng.chance(1, 2) && (idx as usize) >= 84 {
+    if !ctx.slow() && coll.spec.entry == Entry::New && (tsel == 1 || tsel == 2 || tsel == 3) && rng.chance(1, 2) && (idx as usize) >= 84 + SWEEP_LEN {
         let maxi = match tsel {
             1 => 255usize,
             2 => 127,
